@@ -76,10 +76,13 @@ type Hot struct {
 }
 
 type Case struct {
-	Hot      *Hot     `json:"hot,omitempty"`
-	GC       bool     `json:"gc"`       // collect garbage after every discard (address reuse by later TempVMs)
-	SharedFn []string `json:"sharedfn"` // function names N for which the base defines c12call_N() { return N(); }
-	Shared   []string `json:"shared"`   // class names N for which the base defines c12new_N() and class c12child_N extends N
+	Hot *Hot `json:"hot,omitempty"`
+	GC  bool `json:"gc"` // collect garbage after every discard (address reuse by later TempVMs)
+	// SharedObj: class names N for which the base creates ONE object kept in a static property (c12reg_N::$s = new c12fac_N())
+	// whose method bodies all do `new N()` and return its marker: ordinary method make(), __invoke, __get, __call; ping() returns 1
+	SharedObj []string `json:"sharedobj"`
+	SharedFn  []string `json:"sharedfn"` // function names N for which the base defines c12call_N() { return N(); }
+	Shared    []string `json:"shared"`   // class names N for which the base defines c12new_N() and class c12child_N extends N
 	// Callbacks: class names that NO class-path file provides; for name k an spl autoload callback is registered
 	// (parser.AddAutoLoad, process-wide, reset by NewVM) that defines class Callbacks[k] (definition id 2000+k) on the VM
 	// of the context it is called with, and declines every other name (composer classmap / legacy autoloader)
@@ -503,6 +506,51 @@ func (w *world) doOp(o Op) (st Step) {
 			st.D = 1
 		}
 		return
+	case "objcall":
+		// script level, run on VM v: enter the base-created shared object of N through o.Route: "ping" (an ordinary method
+		// that resolves nothing), "method" ($f->make()), "invoke" ($f()), "get" ($f->anything), "call" ($f->undefined())
+		sn := sharedName(o.Name)
+		src := "$f = c12reg_" + sn + "::$s;\n"
+		switch o.Route {
+		case "ping":
+			src += "echo $f->ping();"
+		case "method":
+			src += "echo $f->make();"
+		case "invoke":
+			src += "echo $f();"
+		case "get":
+			src += "echo $f->anyprop;"
+		default:
+			src += "echo $f->undefinedmethod(3);"
+		}
+		p := w.parserFor(o.VM)
+		var sb strings.Builder
+		old := data.WriteOutput
+		data.WriteOutput = func(x string) { sb.WriteString(x) }
+		defer func() { data.WriteOutput = old }()
+		st.R = 5
+		st.D = -1
+		prog, acl := p.ParseString(src, "script.zy")
+		if acl != nil {
+			st.Msg = "parse: " + acl.AsString()
+			return
+		}
+		ctx := v.CreateContext(p.GetVariables())
+		w.thrown = nil
+		_, ctl := prog.GetValue(ctx)
+		if ctl == nil && w.thrown == nil {
+			st.Out = sb.String()
+			if n, err := strconv.Atoi(strings.TrimSpace(sb.String())); err == nil {
+				st.D = n
+			} else {
+				st.D = -8
+			}
+		} else if ctl != nil {
+			st.Msg = ctl.AsString()
+		} else {
+			st.Msg = w.thrown.AsString()
+		}
+		return
 	case "callcall":
 		// script level, run on VM v: the base function c12call_N(), whose body calls N() -- a name no VM defined when the
 		// body was parsed (late-bound call); D = the marker the called N returned (-1: failed)
@@ -887,6 +935,23 @@ func runCase(c *Case) (obs Obs) {
 	w.base.AddNamespace("App", dir)
 	for k, n := range c.Callbacks {
 		parser.AddAutoLoad(data.NewFuncValue(&splCallback{k: k, name: n}))
+	}
+	for _, n := range c.SharedObj {
+		sn := sharedName(n)
+		body := fmt.Sprintf("$o = new %s(); return $o->c12src;", n)
+		src := fmt.Sprintf("class c12reg_%s { public static $s; }\nclass c12fac_%s {\n  function ping() { return 1; }\n  function make() { %s }\n  function __invoke() { %s }\n  function __get($k) { %s }\n  function __call($m, $a) { %s }\n}\nc12reg_%s::$s = new c12fac_%s();\n", sn, sn, body, body, body, body, sn, sn)
+		p := w.p.Clone()
+		prog, acl := p.ParseString(src, "sharedobj.zy")
+		if acl != nil {
+			return Obs{Err: "shared object: parse: " + acl.AsString()}
+		}
+		w.thrown = nil
+		if _, ctl := prog.GetValue(w.base.CreateContext(p.GetVariables())); ctl != nil {
+			return Obs{Err: "shared object: " + ctl.AsString()}
+		}
+		if w.thrown != nil {
+			return Obs{Err: "shared object: " + w.thrown.AsString()}
+		}
 	}
 	for _, n := range c.SharedFn {
 		src := fmt.Sprintf("function c12call_%s() { return %s(); }\n", sharedName(n), n)
